@@ -1,18 +1,21 @@
 #!/bin/bash
-# usage: tools/try_patch.sh <patch.diff> <CHECK> [<CHECK> ...]   (quick tier)
-# Applies a seeded change to /repo, runs the checks, and undoes it.
+# usage: tools/try_patch.sh <patch.diff> <CHECK> [<CHECK> ...]   (TIER=quick|thorough)
+# Runs the checks against a scratch copy of /repo's working tree with the
+# seeded change applied (VERIF_REPO override), so /repo itself is never
+# touched and concurrent runs are not disturbed.  Equivalent to
+# `git -C /repo apply <file>; ./check ...; git -C /repo checkout -- .`.
 P="$(realpath "$1")"; shift
-cd /repo || exit 2
-if [ -n "$(git status --porcelain -- infretis)" ]; then echo "repo dirty"; exit 2; fi
-if ! git apply "$P" 2>/dev/null; then
-  if ! patch -p1 -s --fuzz=3 < "$P"; then echo "PATCH DOES NOT APPLY: $P"; git checkout -- .; exit 3; fi
-fi
+S=/dev/shm/seedrepo-$$
+rm -rf "$S"; mkdir -p "$S"
+(cd /repo && git ls-files -z | xargs -0 cp --parents -t "$S") || exit 2
+cd "$S" || exit 2
+if ! patch -p1 -s --fuzz=3 < "$P"; then echo "PATCH DOES NOT APPLY: $P"; rm -rf "$S"; exit 3; fi
 for c in "$@"; do
-  out=$(cd /verif && VERIF_NOEVIDENCE=1 ./check "$c" --tier "${TIER:-quick}" 2>&1)
+  out=$(cd /verif && VERIF_REPO="$S" VERIF_NOEVIDENCE=1 ./check "$c" --tier "${TIER:-quick}" 2>&1)
   rc=$?
   echo "== $c on $(basename $(dirname $P))/$(basename $P): rc=$rc"
   echo "$out" | grep -E "^(VIOLATION|KNOWN-FINDING|INCONCLUSIVE)" | cut -c1-160 | sort | uniq -c | head -5
   echo "$out" | grep -E "violation:" | cut -c1-260 | head -3
 done
-git checkout -- . ; find /repo -name "*.orig" -o -name "*.rej" | xargs -r rm -f
+rm -rf "$S"
 rm -f /verif/replays/*.json
